@@ -76,6 +76,7 @@ def boundary_values(attr):
     return sorted(out)
 
 
+EXH = a.tier == "exhaustive"
 # ------------------------------------------------------------------ tables
 new(); emit("tables")
 
@@ -99,7 +100,7 @@ def sweep():
                 elif k == 1: emit(f"equivattr 0 1 {attr}", 40)
                 elif k == 2: emit(f"copyattr 2 0 {attr}", 40)
                 else: emit(f"equiv 0 1", 40)
-sweep()
+if not EXH: sweep()
 
 # ------------------------------------------------------------------ attribute pairs for copy / equiv
 def set_op(i, attr, variant):
@@ -129,7 +130,9 @@ def pairs(variants):
                 emit("equiv 1 0")
                 stats["pair_histories"] += 1
 
-if a.tier == "quick":
+if EXH:
+    pass
+elif a.tier == "quick":
     pairs([(rng.randrange(4), rng.randrange(4), rng.randrange(4), rng.randrange(4)) for _ in range(2)] + [(2, 0, 3, 1)])
 else:
     pairs([(rng.randrange(4), rng.randrange(4), rng.randrange(4), rng.randrange(4)) for _ in range(8)] + [(2, 0, 3, 1), (3, 3, 2, 0), (1, 2, 0, 3)])
@@ -149,7 +152,7 @@ def rgb_near_miss():
                 emit("clone 2 1"); emit("copy 2 0 1"); emit("equiv 2 0"); emit("copy 1 0 0"); emit("equiv 1 0")
                 emit(f"setrgb 1 {attr} {base[0]} {base[1]} {base[2]}"); emit("equiv 0 1")
                 stats["rgb_near_miss_histories"] += 1
-rgb_near_miss()
+if not EXH: rgb_near_miss()
 
 # ------------------------------------------------------------------ description strings
 def gen_base():
@@ -245,7 +248,7 @@ def desc_section(n):
         emit(f"desc 1 2 {hexs('hi-' + str(v))}")
         desc_classes["number-systematic"] += 2
 
-desc_section(1500 if a.tier == "quick" else 6000)
+if not EXH: desc_section(1500 if a.tier == "quick" else 6000)
 
 # ------------------------------------------------------------------ random histories
 def rand_value(attr):
@@ -323,7 +326,7 @@ def random_history(nops):
                     prs += [str(at), str(v)]
             emit(" ".join([f"mkattrs {i} {n}"] + prs), 60)
 
-NH = 1200 if a.tier == "quick" else 6000
+NH = 0 if EXH else (1200 if a.tier == "quick" else 6000)
 for _ in range(NH):
     random_history(rng.choice([5, 10, 20, 30, 38]))
 stats["random_histories"] = NH
@@ -331,7 +334,7 @@ stats["random_histories"] = NH
 # ------------------------------------------------------------------ small-scope exhaustive enumeration
 exh_bound = None
 if a.tier == "exhaustive":
-    lines, stats = [], collections.Counter()
+    lines, stats, desc_classes, value_classes = [], collections.Counter(), {}, {}
     A1 = ["setc 0 1 5", "setc 1 1 5", "setc 0 1 -1", "setrgb 0 1 1 2 3", "setrgb 1 1 1 2 3", "clear 0 1", "copy 1 0 0", "copy 1 0 1", "copy 0 1 1",
           "copyattr 1 0 1", "copyattr 0 0 1", "clone 1 0", "desc 0 1 72656423303130323033", "copy 0 0 1"]
     A2 = ["setb 0 3 1", "setb 1 3 0", "seti 0 4 2", "setb 1 4 1", "seti 0 10 3", "clear 0 3", "clear 1 4", "copy 1 0 0", "copy 1 0 1", "copy 0 1 0",
